@@ -921,6 +921,51 @@ impl IterState {
 
 ////////////////////////////////////////////////////////////////////////////////////////////////////
 
+/// Verification hooks (off in every normal build): build an attribute iterator
+/// in a given state and look at its state.
+#[cfg(any(kani, quick_xml_verif))]
+impl<'a> Attributes<'a> {
+    /// `state`: 0 = Done, 1 = Next(offset), 2 = SkipValue(offset), 3 = SkipEqValue(offset)
+    #[doc(hidden)]
+    pub fn verif_with_state(
+        bytes: &'a [u8],
+        state: u8,
+        offset: usize,
+        html: bool,
+        check_duplicates: bool,
+        keys: Vec<Range<usize>>,
+    ) -> Self {
+        Self {
+            bytes,
+            state: IterState {
+                state: match state {
+                    0 => State::Done,
+                    1 => State::Next(offset),
+                    2 => State::SkipValue(offset),
+                    _ => State::SkipEqValue(offset),
+                },
+                html,
+                check_duplicates,
+                keys,
+            },
+        }
+    }
+
+    /// Returns `(state code, offset, recorded key ranges)`
+    #[doc(hidden)]
+    pub fn verif_state(&self) -> (u8, usize, &[Range<usize>]) {
+        let (code, offset) = match self.state.state {
+            State::Done => (0, 0),
+            State::Next(o) => (1, o),
+            State::SkipValue(o) => (2, o),
+            State::SkipEqValue(o) => (3, o),
+        };
+        (code, offset, &self.state.keys)
+    }
+}
+
+////////////////////////////////////////////////////////////////////////////////////////////////////
+
 /// Checks, how parsing of XML-style attributes works. Each attribute should
 /// have a value, enclosed in single or double quotes.
 #[cfg(test)]
